@@ -146,7 +146,7 @@ def h_interface(ctx, n, r, pmode, with_i, norm):
             M = M + G[:, j, :] * weight(k, j)
         return M
 
-    nrm = {'none': None, 'natural': 'natural', 'linalg': 'linalg'}[norm]
+    nrm = {'none': None, 'natural': 'natural', 'linalg': 'linalg', 'l': 'l', 'n': 'n'}[norm]   # (documented short forms)
     for ltr in (False, True):
         phi = teneva.interface(Y, P, idx, nrm, ltr)
         ctx.claim('length', len(phi) == d + 1)
@@ -173,7 +173,7 @@ def h_interface(ctx, n, r, pmode, with_i, norm):
                 want = want + w
             end = phi[0] if not ltr else phi[-1]
             ctx.claim('dense_contraction', ctx.eq(end[0], want))
-        elif nrm == 'natural':
+        elif nrm in ('natural', 'n'):
             phi0 = teneva.interface(Y, P, idx, None, ltr)
             # natural norm: each step divides by the mode size
             seq = range(d - 1, -1, -1) if not ltr else range(d)
@@ -243,6 +243,8 @@ def h_accuracy_on_data(ctx, n, r, m):
     Y = ctx.tt('y', n, r)
     F = ref_full(Y)
     I = multi_indices(n)[:m]
+    if m >= 3:
+        I = I[:m - 1] + [I[0]]             # a repeated multi-index (measured twice, different values)
     yd = vec(ctx, 'd', m)
     ctx.assume(ctx.gt(yd[0], 0))
     acc = teneva.accuracy_on_data(Y, np.array(I), yd)
@@ -396,6 +398,10 @@ def instances(tier):
             for pmode, with_i in (('none', False), ('per_mode', True)):
                 out.append({'func': 'h_interface', 'params': {'n': n, 'r': r, 'pmode': pmode, 'with_i': with_i, 'norm': norm},
                             'opts': {'raw': False}})
+    # documented short forms of the norm names
+    for norm in ('l', 'n'):
+        out.append({'func': 'h_interface', 'params': {'n': [2, 2], 'r': 2, 'pmode': 'per_mode', 'with_i': False, 'norm': norm},
+                    'opts': {'raw': False, 'generic_divisors': norm == 'l'}})
     out.append({'func': 'h_trees', 'params': {'n': [2, 2], 'depth': 1}, 'opts': {'raw': False}})
     out.append({'func': 'h_trees', 'params': {'n': [2, 2], 'depth': 2}, 'opts': {'raw': False}})
     if not quick:
